@@ -351,10 +351,69 @@ def deviation_kind(z, e):
     return 'other'
 
 
+def judge_row(z, text, r, out, report, case, report_dev):
+    """The property's wording on one converted row (r = impl result for text)."""
+    valid = canonical_valid(text)
+    if r[0] == 'err':
+        if valid:
+            report('oracle', 'generate_timestamped_rows raised %s: %s on the valid timestamp %r '
+                   'in zone %s' % (type(r[1]).__name__, r[1], text, z.name), case)
+        else:
+            out.count('FL:malformed_refused')
+            if C.err_of(r[1]) != 'EValue':
+                out.count('FL:malformed_refused_with_%s' % type(r[1]).__name__)
+        return
+    if not valid:
+        report('oracle', 'generate_timestamped_rows accepted %r, which is not a timestamp '
+               '(zone %s), as epoch %d' % (text, z.name, r[1]), case)
+        return
+    e = r[1]
+    local = naive_secs(text)
+    if z.render_iana(e) == text:
+        out.count('FL:renders_back')
+        cands = z.candidates(local)
+        if len(cands) > 1:
+            out.count('FL:ambiguous_local_time')
+            out.nontriv(('amb', z.name, text))
+        elif z.view['trans'] and abs(e - min(z.times, key=lambda t: abs(t - e))) <= 86400:
+            out.nontriv(('near', z.name, text))
+        if z.view['trans'] and e < z.times[0]:
+            out.count('FL:before_first_transition')
+        return
+    if z.render(e) == text:
+        kind = deviation_kind(z, e)
+        out.count('pytz_table_deviation:' + kind)
+        if report_dev:
+            report('oracle', 'pytz table deviates from the IANA data (%s): %r in %s is stored as '
+                   '%d, which renders as %r' % (kind, text, z.name, e, z.render_iana(e)),
+                   case, 'C11/pytz-table-deviation')
+        return
+    if not z.candidates(local):
+        if not z.exists_iana(local):
+            out.count('FL:skipped_local_time(outside quantifier)')
+            return
+        # exists in the IANA data but is skipped in pytz's minute-rounded / 32-bit table
+        kind = 'skipped_only_in_pytz_table:' + deviation_kind(z, e)
+        out.count('pytz_table_deviation:' + kind)
+        if report_dev:
+            report('oracle', 'pytz table deviates from the IANA data (%s): %r in %s is stored as '
+                   '%d, which renders as %r' % (kind, text, z.name, e, z.render_iana(e)),
+                   case, 'C11/pytz-table-deviation')
+        return
+    if z.render_iana(e) is None:
+        out.count('FL:not_renderable_by_stdlib')
+        return
+    report('oracle', 'timestamp %r in zone %s is stored as epoch %d, which renders in that zone '
+           'as %r (pytz table: %r)' % (text, z.name, e, z.render_iana(e), z.render(e)), case)
+
+
 def check_fl(zones_texts, out, label, shard_zones=4):
     """zones_texts: list of (Zone, [text])."""
     import pytz
     report_dev = known_switch('C11/pytz-table-deviation')
+
+    def report(kind, msg, case, signature=None):
+        out.violation(kind, msg, case=case, signature=signature)
     blocks = []    # per zone: (zone, texts, impl results)
     for z, texts in zones_texts:
         tz = pytz.timezone(z.name)
@@ -363,61 +422,15 @@ def check_fl(zones_texts, out, label, shard_zones=4):
             r = impl_stamp(tz, text)
             results.append(r)
             out.evaluations += 1
-            case = dict(level='FL', zone=z.name, text=text)
-            valid = canonical_valid(text)
-            if r[0] == 'err':
-                if valid:
-                    out.violation('oracle', 'generate_timestamped_rows raised %s: %s on the valid timestamp %r '
-                                  'in zone %s' % (type(r[1]).__name__, r[1], text, z.name), case=case)
-                else:
-                    out.count('FL:malformed_refused')
-                    if C.err_of(r[1]) != 'EValue':
-                        out.count('FL:malformed_refused_with_%s' % type(r[1]).__name__)
-                continue
-            if not valid:
-                out.violation('oracle', 'generate_timestamped_rows accepted %r, which is not a timestamp '
-                              '(zone %s), as epoch %d' % (text, z.name, r[1]), case=case)
-                continue
-            e = r[1]
-            local = naive_secs(text)
-            if z.render_iana(e) == text:
-                out.count('FL:renders_back')
-                cands = z.candidates(local)
-                if len(cands) > 1:
-                    out.count('FL:ambiguous_local_time')
-                    out.nontriv(('amb', z.name, text))
-                elif z.view['trans'] and abs(e - min(z.times, key=lambda t: abs(t - e))) <= 86400:
-                    out.nontriv(('near', z.name, text))
-                if z.view['trans'] and e < z.times[0]:
-                    out.count('FL:before_first_transition')
-                continue
-            if z.render(e) == text:
-                kind = deviation_kind(z, e)
-                out.count('pytz_table_deviation:' + kind)
-                if report_dev:
-                    out.violation('oracle', 'pytz table deviates from the IANA data (%s): %r in %s is stored as '
-                                  '%d, which renders as %r' % (kind, text, z.name, e, z.render_iana(e)),
-                                  case=case, signature='C11/pytz-table-deviation')
-                continue
-            if not z.candidates(local):
-                if not z.exists_iana(local):
-                    out.count('FL:skipped_local_time(outside quantifier)')
-                    continue
-                # exists in the IANA data but is skipped in pytz's minute-rounded / 32-bit table
-                kind = 'skipped_only_in_pytz_table:' + deviation_kind(z, e)
-                out.count('pytz_table_deviation:' + kind)
-                if report_dev:
-                    out.violation('oracle', 'pytz table deviates from the IANA data (%s): %r in %s is stored as '
-                                  '%d, which renders as %r' % (kind, text, z.name, e, z.render_iana(e)),
-                                  case=case, signature='C11/pytz-table-deviation')
-                continue
-            if z.render_iana(e) is None:
-                out.count('FL:not_renderable_by_stdlib')
-                continue
-            out.violation('oracle', 'timestamp %r in zone %s is stored as epoch %d, which renders in that zone '
-                          'as %r (pytz table: %r)' % (text, z.name, e, z.render_iana(e), z.render(e)), case=case)
+            judge_row(z, text, r, out, report, dict(level='FL', zone=z.name, text=text), report_dev)
         blocks.append((z, texts, results))
-    # correspondence inside Coq
+    coq_stamp_blocks(blocks, out, label, shard_zones, report,
+                     lambda b, i: dict(level='FL', zone=b[0].name, text=b[1][i]))
+
+
+def coq_stamp_blocks(blocks, out, label, shard_zones, report, case_of):
+    """Correspondence inside Coq: the model `stamp` on every (text, implementation result)
+    of every block (zone, texts, results, ...)."""
     d = os.path.join(C.WORK, PROP, label)
     import shutil
     shutil.rmtree(d, ignore_errors=True)
@@ -437,7 +450,8 @@ def check_fl(zones_texts, out, label, shard_zones=4):
         path = os.path.join(d, 'stamp_%04d.v' % k)
         with open(path, 'w') as f:
             f.write(PRE)
-            for j, (z, texts, results) in enumerate(group):
+            for j, b in enumerate(group):
+                z, texts, results = b[0], b[1], b[2]
                 f.write('Definition z%d : zone := %s.\n' % (j, z.coq()))
                 items = []
                 for text, r in zip(texts, results):
@@ -461,7 +475,8 @@ def check_fl(zones_texts, out, label, shard_zones=4):
             if rc != 0 or len(lists) != len(group):
                 out.corr_errors.append((path, text_out[-2000:]))
                 continue
-            for j, (z, texts, results) in enumerate(group):
+            for j, b in enumerate(group):
+                z, texts, results = b[0], b[1], b[2]
                 codes = {int(i): int(k) for i, k in re.findall(r'\(\s*(\d+)(?:%nat)?,\s*(\d+)(?:%nat)?\s*\)', lists[j])}
                 inner = lists[j].strip()
                 n_items = 0 if inner in ('nil', '[]') or not inner.strip('[] \n') else inner.count(';') + 1
@@ -474,24 +489,233 @@ def check_fl(zones_texts, out, label, shard_zones=4):
                 for i in bad:
                     r = results[i]
                     what = ('epoch %d' % r[1]) if r[0] == 'ok' else '%s: %s' % (type(r[1]).__name__, r[1])
-                    out.violation('corr', 'model stamp <> generate_timestamped_rows on %r in zone %s: '
-                                  'implementation gives %s, model candidates %s'
-                                  % (texts[i], z.name, what,
-                                     z.candidates(naive_secs(texts[i])) if canonical_valid(texts[i]) else 'n/a'),
-                                  case=dict(level='FL', zone=z.name, text=texts[i]))
+                    report('corr', 'model stamp <> generate_timestamped_rows on %r in zone %s: '
+                           'implementation gives %s, model candidates %s'
+                           % (texts[i], z.name, what,
+                              z.candidates(naive_secs(texts[i])) if canonical_valid(texts[i]) else 'n/a'),
+                           case_of(b, i))
                 for i in skipped:
                     out.count('FL:model_says_nonexistent(compared: localize(dt-6h)+6h)')
                     if canonical_valid(texts[i]) and z.candidates(naive_secs(texts[i])):
-                        out.violation('corr', 'model calls %r in %s a skipped local time but the table has '
-                                      'candidates' % (texts[i], z.name),
-                                      case=dict(level='FL', zone=z.name, text=texts[i]))
+                        report('corr', 'model calls %r in %s a skipped local time but the table has '
+                               'candidates' % (texts[i], z.name), case_of(b, i))
                 for i in unmodelled:
                     out.count('FL:model_out_of_fuel(not compared)')
                 not_existing = set(skipped) | set(unmodelled)
                 for i in range(len(texts)):
                     if i not in not_existing and canonical_valid(texts[i]) and not z.candidates(naive_secs(texts[i])):
-                        out.violation('corr', 'model finds an instant for %r in %s but the table has no candidate'
-                                      % (texts[i], z.name), case=dict(level='FL', zone=z.name, text=texts[i]))
+                        report('corr', 'model finds an instant for %r in %s but the table has no candidate'
+                               % (texts[i], z.name), case_of(b, i))
+
+
+# ------------------------------------------------------------- FF: whole files through one call
+
+FILE_KINDS = ['span0', 'span1', 'span2', 'span2', 'span3', 'span4', 'year', 'fold', 'gap', 'span2']
+FILE_ZONES = ['Europe/Berlin', 'Australia/Sydney', 'America/New_York', 'Australia/Lord_Howe', 'Europe/Dublin',
+              'America/Sao_Paulo', 'Africa/Casablanca', 'Pacific/Apia', 'Asia/Tehran', 'America/St_Johns',
+              'Europe/London', 'Asia/Kolkata']
+LO_LIM, HI_LIM = V1_LO + 86400 * 30, Y2038 - 86400 * 400
+
+
+def ideal_stamp(z, local):
+    """The instant asked for, by the pytz-view table: among the instants whose
+    reading on the zone's clock is `local`, a standard-time one if there is
+    one, the latest of those (what localize(is_dst=False) answers); None for a
+    reading that does not exist."""
+    c = z.candidates(local)
+    std = [e for e in c if not z.info_at(e)[1]]
+    pick = std or c
+    return max(pick) if pick else None
+
+
+def nice_step(rng, step):
+    if step >= 2 * 86400 and rng.random() < 0.6:
+        return step - step % 86400
+    if step >= 7200 and rng.random() < 0.6:
+        return step - step % 3600
+    if step >= 120 and rng.random() < 0.6:
+        return step - step % 60
+    return max(1, step)
+
+
+def span_window(rng, z, k):
+    """(start, end) in UTC with exactly k consecutive transitions of the zone's
+    table in (start, end]; None if the table has no such window in pytz's range."""
+    times = [t for t in z.times if LO_LIM < t < HI_LIM]
+    if len(times) < max(k, 1):
+        if k == 0:
+            a = rng.randrange(LO_LIM, HI_LIM - 86400 * 800)
+            return a, a + rng.randrange(2, 86400 * 700)
+        return None
+    far = 86400 * 300
+    if k == 0:
+        j = rng.randrange(len(times) + 1)
+        a = times[j - 1] if j > 0 else times[0] - far
+        b = times[j] if j < len(times) else times[-1] + far
+        a, b = max(a, LO_LIM), min(b, HI_LIM)
+        if b - a < 3:
+            return None
+        start = rng.randrange(a, b - 2)
+        return start, rng.randrange(start + 1, b)
+    i = rng.randrange(len(times) - k + 1)
+    left = max(times[i - 1] if i > 0 else times[i] - far, LO_LIM)
+    right = min(times[i + k] if i + k < len(times) else times[i + k - 1] + far, HI_LIM)
+    first, last = times[i], times[i + k - 1]
+    if first - left < 2 or right - last < 2:
+        return None
+    start = rng.choice([rng.randrange(left, first), first - 1, first - rng.choice([60, 3600, 86400]), left])
+    end = rng.choice([rng.randrange(last, right), last, last + rng.choice([1, 3600, 86400]), right - 1])
+    if not (left <= start < first and last <= end < right):
+        start, end = rng.randrange(left, first), rng.randrange(last, right)
+    return start, end
+
+
+def gen_file_instants(rng, z, kind, n=None):
+    """A record uniform in UTC laid over a chosen number of consecutive
+    transitions ('spanK'), over about a year ('year'), finely sampled through a
+    repeated hour ('fold') or through a skipped one ('gap').  Returns
+    (instants, step) or None."""
+    if n is None:
+        n = rng.choice([2, 3, 5, 8, 13, 24, 40])
+    times = [t for t in z.times if LO_LIM < t < HI_LIM]
+    if kind in ('fold', 'gap'):
+        ks = []
+        for k, (t, off_after, _) in enumerate(z.view['trans']):
+            off_before = z.view['first'][0] if k == 0 else z.view['trans'][k - 1][1]
+            if LO_LIM < t < HI_LIM and ((off_after < off_before) == (kind == 'fold')) and off_after != off_before:
+                ks.append(t)
+        if not ks:
+            return None
+        t = rng.choice(ks)
+        step = rng.choice([600, 900, 1800, 3600, 7200, 1200])
+        a = rng.randrange(1, max(2, n))
+        start = t - a * step + rng.choice([0, 0, rng.randrange(step)])
+        return [start + j * step for j in range(n + 1)], step
+    if kind == 'year':
+        start = rng.randrange(LO_LIM, HI_LIM - 86400 * 800)
+        if times and rng.random() < 0.7:
+            start = rng.choice(times) - rng.randrange(1, 86400 * 120)
+        n = max(n, 5)
+        step = nice_step(rng, (86400 * rng.choice([364, 365, 366, 400, 730])) // (n - 1))
+        return [start + j * step for j in range(n)], step
+    k = int(kind[4:])
+    n = max(n, 2 if k < 2 else 3)
+    got = None
+    for _ in range(30):
+        w = span_window(rng, z, k)
+        if w is None:
+            continue
+        start, end = w
+        step = nice_step(rng, max(1, -((start - end) // (n - 1))))
+        inst = [start + j * step for j in range(n)]
+        if inst[-1] < HI_LIM:
+            got = inst, step
+            if sum(1 for t in z.times if inst[0] < t <= inst[-1]) == k:
+                break
+    return got
+
+
+def file_profile(z, instants):
+    """Measured on a record: how many transitions it spans, whether its two
+    ends share an offset that does not hold in between."""
+    lo, hi = min(instants), max(instants)
+    crossed = sum(1 for t in z.times if lo < t <= hi)
+    offs = [z.info_at(t)[0] for t in sorted(instants)]
+    tags = ['transitions_spanned=%s' % (crossed if crossed < 5 else '5+')]
+    if offs[0] == offs[-1] and len(set(offs)) > 1:
+        tags.append('ends_share_an_offset_that_does_not_hold_in_between')
+    if len(set(offs)) > 1 and offs[0] != offs[-1]:
+        tags.append('ends_have_different_offsets')
+    if any(len(z.candidates(t + z.info_at(t)[0])) > 1 for t in instants):
+        tags.append('has_repeated_local_time')
+    return tags
+
+
+def gen_fl_file(rng, z, kind):
+    """Texts of one file for generate_timestamped_rows (one call), in some row order."""
+    g = gen_file_instants(rng, z, kind)
+    if g is None:
+        g = gen_file_instants(rng, z, 'span0')
+    if g is None:
+        return None
+    inst, step = g
+    if kind == 'gap':
+        # readings uniform on the local clock through the skipped hour (some do not exist)
+        off = z.info_at(inst[0])[0]
+        texts = [fmt_naive(t + off) for t in inst]
+    else:
+        texts = [z.render(t) for t in inst]
+    if any(t is None for t in texts):
+        return None
+    return dict(kind=kind, texts=G.order_rows(rng, texts), instants=inst)
+
+
+def impl_stamp_file(tz, texts):
+    """One call of generate_timestamped_rows on all rows of a file (an iterator,
+    as csv.reader is); per-row results."""
+    import spowtd.load as L
+    rows_in = [[t, 'v%d' % i] for i, t in enumerate(texts)]
+    try:
+        rows = list(L.generate_timestamped_rows(iter(rows_in), tz))
+    except Exception as e:  # pylint: disable=broad-except
+        return [('err', e)] * len(texts)
+    if len(rows) != len(texts) or any(list(r[1:]) != ['v%d' % i] or type(r[0]) is not int for i, r in enumerate(rows)):
+        return [('err', RuntimeError('unexpected rows %r' % (rows[:3],)))] * len(texts)
+    return [('ok', r[0]) for r in rows]
+
+
+def check_fl_files(zone_files, out, label):
+    """zone_files: list of (Zone, [dict(kind, texts)]).  Every file goes through ONE
+    call; every row is judged as in check_fl (oracle and model).  At most one
+    violation of each kind is reported per file (the others are counted)."""
+    import pytz
+    report_dev = known_switch('C11/pytz-table-deviation')
+    blocks = []
+    for z, files in zone_files:
+        tz = pytz.timezone(z.name)
+        all_texts, all_results, origin = [], [], []
+        for fi, f in enumerate(files):
+            texts = f['texts']
+            results = impl_stamp_file(tz, texts)
+            out.evaluations += 1
+            out.count('FF:files')
+            out.count('FF:kind:' + f.get('kind', '?'))
+            exp = [ideal_stamp(z, naive_secs(t)) for t in texts if canonical_valid(t)]
+            known = [e for e in exp if e is not None]
+            prof = file_profile(z, known) if known else []
+            for tag in prof:
+                out.count('FF:' + tag)
+            nontrivial_file = len(known) > 2 and any(t.startswith('ends_share') for t in prof)
+            if any(e is None for e in exp):
+                out.count('FF:has_nonexistent_local_time')
+            if texts != sorted(texts):
+                out.count('FF:rows_not_in_time_order')
+            seen = set()
+
+            def report(kind, msg, case, signature=None, seen=seen, n=len(texts)):
+                if (kind, signature) in seen:
+                    out.count('FF:further_rows_of_a_reported_file')
+                    return
+                seen.add((kind, signature))
+                out.violation(kind, msg + ' [row %d of a file of %d rows converted in one call]' % (case['row'], n),
+                              case=case, signature=signature)
+            f['report'] = report
+            for i, (text, r) in enumerate(zip(texts, results)):
+                judge_row(z, text, r, out, report, dict(level='FF', zone=z.name, texts=texts, row=i), report_dev)
+                if r[0] == 'ok' and nontrivial_file:
+                    out.nontriv(('ff', z.name, text))
+            all_texts += texts
+            all_results += results
+            origin += [(fi, i) for i in range(len(texts))]
+        blocks.append((z, all_texts, all_results, files, origin))
+
+    def report_corr(kind, msg, case, signature=None):
+        case.pop('_report')(kind, msg, case, signature)
+
+    def case_of(b, i):
+        fi, row = b[4][i]
+        return dict(level='FF', zone=b[0].name, texts=b[3][fi]['texts'], row=row, _report=b[3][fi]['report'])
+    coq_stamp_blocks(blocks, out, label, 4, report_corr, case_of)
 
 
 # ------------------------------------------------------------- CL: `spowtd load` in a zone
@@ -503,10 +727,81 @@ CL_CLASSES = ['same', 'finer_gappy', 'nonaligned', 'wl_outlasts', 'nonuniform_in
               'bad_text']
 
 
-def gen_cl_case(rng, zone_cache):
+CL_EXTRA_CLASSES = ['nonuniform_at_end', 'et_starts_late', 'nonuniform_at_start', 'et_ends_early', 'nonuniform_at_end',
+                    'et_holes', 'et_coarser', 'nonuniform_at_end', 'et_off_phase', 'nonuniform_at_start']
+CL_SPAN_KINDS = ['span2', 'span1', 'span2', 'span0', 'span3', 'span2', 'year', 'span4', 'fold']
+
+
+def representable(z, t):
+    """Instant t, written on the zone's clock, is read back as t (by the
+    pytz-view table and by zoneinfo alike): not the first pass of a repeated
+    hour, no minute rounding, inside pytz's range."""
+    text = z.render(t)
+    return (text is not None and V1_LO + 86400 < t < Y2038 - 86400 * 400
+            and ideal_stamp(z, naive_secs(text)) == t and z.render_iana(t) == text)
+
+
+def gen_cl_span_case(rng, zone_cache, kind):
+    """A well-formed triple, uniform in UTC, whose rainfall record is laid over a
+    chosen number of consecutive transitions of a zone (0, 1, 2, ...; about a
+    year; with one record in the second pass of a repeated hour).  The
+    water-level record either follows it or is cut down to the samples lying
+    between two consecutive transitions, so that the three files see
+    different sets of offsets."""
+    for _ in range(200):
+        name = rng.choice(FILE_ZONES)
+        z = zone_cache(name)
+        n = rng.choice([6, 9, 14, 20, 28])
+        k = kind
+        if kind == 'fold':
+            k = rng.choice(['span1', 'span2', 'span2', 'year'])
+        g = gen_file_instants(rng, z, k, n)
+        if g is None:
+            continue
+        inst, step = g
+        base = inst[0]
+        if kind == 'fold':
+            # move the record so that one of its instants falls into the second pass of a repeated hour
+            folds = []
+            for j, (t, off_after, _) in enumerate(z.view['trans']):
+                off_before = z.view['first'][0] if j == 0 else z.view['trans'][j - 1][1]
+                if inst[0] < t <= inst[-1] and off_after < off_before:
+                    folds.append((t, off_before - off_after))
+            if not folds:
+                continue
+            t, width = rng.choice(folds)
+            target = t + rng.choice([0, width - 1, rng.randrange(width)])
+            j = min(range(n), key=lambda i: abs(inst[i] - target))
+            base += target - inst[j]
+        cls = rng.choice(['same', 'tight', 'coarser', 'finer', 'wl_outlasts', 'rain_outlasts', 'same_gappy', 'same'])
+        c = G.gen_valid(rng, cls, step=step, base=base, n_rain=n)
+        c['cls'] = 'dst_' + kind
+        c['tz'] = name
+        if rng.random() < 0.5:
+            # water level only between two consecutive transitions (the longest such run of samples)
+            wl = sorted(c['wl'])
+            runs, cur = [], [wl[0]]
+            for a, b in zip(wl, wl[1:]):
+                if any(a[0] < t <= b[0] for t in z.times):
+                    runs.append(cur)
+                    cur = []
+                cur.append(b)
+            runs.append(cur)
+            best = max(runs, key=len)
+            if len(best) >= 2 and len(G.span_grid([t for t, _ in c['rain']], [t for t, _ in best])) >= 2:
+                c['wl'] = G.order_rows(rng, best)
+        if c10.malformations(c):
+            continue
+        if all(representable(z, t) for key in ('rain', 'et', 'wl') for t, _ in c[key]):
+            return c
+    raise RuntimeError('no representable %s case found' % kind)
+
+
+def gen_cl_case(rng, zone_cache, cls=None):
     """A gen_load case moved into a zone; every instant must render to a local
     time that converts back to that instant (no repeated hour, no rounding)."""
-    cls = rng.choice(CL_CLASSES)
+    if cls is None:
+        cls = rng.choice(CL_CLASSES)
     for _ in range(40):
         name = rng.choice(CL_ZONES)
         z = zone_cache(name)
@@ -604,6 +899,13 @@ def check_cl(cases, out, label, zone_cache):
         out.evaluations += 1
         out.count('CL:class:' + case['cls'])
         out.count('CL:zone:' + case['tz'])
+        for tag in sorted(c10.malformation_profile(case)):
+            out.count('CL:profile:' + tag)
+        if case['cls'].startswith('dst_'):
+            for key in ('rain', 'et', 'wl'):
+                if case[key]:
+                    for tag in file_profile(z, [t for t, _ in case[key]]):
+                        out.count('CL:%s_file:%s' % (key, tag))
         pub = dict(level='CL', case={k: case[k] for k in ('cls', 'tz', 'pre', 'rain', 'et', 'wl', 'bad') if k in case})
         if res.get('filler_failed'):
             out.violation('oracle', 'load refused a plain well-formed dataset: %s' % res['exc'], case=pub)
@@ -636,6 +938,14 @@ def check_cl(cases, out, label, zone_cache):
             out.count('CL:refused:%s' % C.err_of(res['exc']))
             if listed:
                 out.nontriv(c10.digest(case))
+            elif not bad:
+                # none of the malformations of the files (c10.malformations: populated, duplicate, too little
+                # overlap, non-uniform rainfall step, ET missing at a grid / the closing instant, a text that
+                # is not a timestamp): its timestamps must be stored
+                out.violation('oracle', 'load refused (%s: %s) a well-formed input in zone %s: uniform rainfall '
+                              'steps within the water-level span, ET at every grid instant, an empty data file; '
+                              'its timestamps are not stored'
+                              % (type(res['exc']).__name__, res['exc'], case['tz']), case=pub)
             if case.get('pre'):
                 if res['tables'] != res['before']:
                     out.violation('oracle', 'a refused load into a populated database changed its tables', case=pub)
@@ -699,13 +1009,36 @@ def run(ctx, out):
     check_fl(plan, out, 'fl')
     check_noncanonical(plan, out, rng, 3 if tier == 'quick' else 10)
     cases = [gen_cl_case(rng, zc) for _ in range(ncl)]
+    # further streams, each from its own random source (the streams above are unchanged)
+    quick = tier == 'quick'
+    rng_ff = C.rng_for(seed, PROP, 'files')
+    ff_names = list(FILE_ZONES) + [n for n in names if n not in FILE_ZONES][:(4 if quick else 10 ** 6)]
+    zone_files = []
+    for a, n in enumerate(ff_names):
+        z = zc(n)
+        kinds = [FILE_KINDS[(a + b) % len(FILE_KINDS)] for b in range(3 if quick else 12)]
+        files = [f for f in (gen_fl_file(rng_ff, z, k) for k in kinds) if f is not None]
+        if files:
+            zone_files.append((z, files))
+    check_fl_files(zone_files, out, 'ff')
+    rng_x = C.rng_for(seed, PROP, 'cl_malformed_et_and_edges')
+    nx = 15 if quick else 140
+    cases += [gen_cl_case(rng_x, zc, CL_EXTRA_CLASSES[k % len(CL_EXTRA_CLASSES)]) for k in range(nx)]
+    rng_s = C.rng_for(seed, PROP, 'cl_spans')
+    ns = 18 if quick else 180
+    cases += [gen_cl_span_case(rng_s, zc, CL_SPAN_KINDS[k % len(CL_SPAN_KINDS)]) for k in range(ns)]
     check_cl(cases, out, 'cl', zc)
     out.rule = ('FL: for each zone, texts rendered from instants around transitions (+-{0,1s,1h,1d}), the local '
                 'readings at both sides of each transition, LMT-era and random instants, plus malformed texts, '
                 'through generate_timestamped_rows. CL: gen_load cases written in a non-UTC zone through `spowtd '
                 'load`. Non-trivial: FL texts within a day of a transition or ambiguous; CL loads accepted with '
                 'all instants rendering back, or refused for one of the listed malformations; distinct by '
-                '(zone, text) / file digest.')
+                '(zone, text) / file digest. FF: whole files (records uniform in UTC over 0, 1, 2, 3, 4 consecutive '
+                'transitions, about a year, finely through a repeated / a skipped hour; any row order) through ONE '
+                'call of generate_timestamped_rows, every row judged like an FL text; non-trivial: rows of files '
+                'whose two ends share an offset that does not hold in between. CL also: such records as the three '
+                'input files (dst_* classes), ET records starting late / ending early / with holes, and a '
+                'non-uniform rainfall step closed exactly at the last (first) water-level timestamp.')
     out.samples = [dict(level='FL', zone=plan[3][0].name, texts=plan[3][1][:4])]
     out.assumptions += [
         'pytz localize (the search among the offsets in force a day before / after) is an oracle, compared on '
@@ -725,6 +1058,8 @@ def replay(case, out):
     zc = make_zone_cache()
     if case['level'] == 'FL':
         check_fl([(zc(case['zone']), [case['text']])], out, 'replay')
+    elif case['level'] == 'FF':
+        check_fl_files([(zc(case['zone']), [dict(kind='replay', texts=case['texts'])])], out, 'replay')
     elif case['level'] == 'NC':
         import pytz
         tz = pytz.timezone(case['zone'])
